@@ -244,6 +244,13 @@ def run(F, chk):
                           "survive, so repeated load/save needs more than two rounds to converge")
     chk.floor(R6, 1)
 
+    # ------------------------------------------------------------------ R1.9
+    chk.share(F, "c05", ["R5.1", "R5.5"], "R1.9",
+              "the default save prunes and sorts by what the enumerators report: a serialised reference that GetChildRefs omits "
+              "(while GetChildIndices keeps it) is pruned in one round and chased in the next, so the output never reaches a "
+              "fixed point")
+    chk.floor("R1.9", 600)
+
     chk.assumptions += ["value-level encode/decode inside one shared expression, PrepareData<->FinalizeData inverse-ness and the "
                         "two-round convergence bound are not decided",
                         "locals of hand-written readers (NiString buffers, header version locals) are not wire-visible names; "
